@@ -52,6 +52,7 @@ tree3 = { usesilent ~ seq ~ rep }
 tree4 = { tree3 ~ (tree3 | choice)? }
 marker = { &b }
 optempty = { a ~ marker? ~ b? ~ (marker | "c")? }
+silent_lit = _{ "a" ~ ("b" | NEWLINE)+ ~ ANY? }
 optpush_atomic = @{ PUSH(a) ~ (PUSH(b) ~ "c")? ~ b ~ PEEK? }
 optpush = { PUSH(a) ~ (PUSH(b) ~ "c")? ~ b ~ PEEK? ~ (PUSH(a) ~ a)* ~ POP? }
 "# } }
@@ -101,6 +102,7 @@ tree3 = { usesilent ~ seq ~ rep }
 tree4 = { tree3 ~ (tree3 | choice)? }
 marker = { &b }
 optempty = { a ~ marker? ~ b? ~ (marker | "c")? }
+silent_lit = _{ "a" ~ ("b" | NEWLINE)+ ~ ANY? }
 optpush_atomic = @{ PUSH(a) ~ (PUSH(b) ~ "c")? ~ b ~ PEEK? }
 optpush = { PUSH(a) ~ (PUSH(b) ~ "c")? ~ b ~ PEEK? ~ (PUSH(a) ~ a)* ~ POP? }
 "#]
@@ -152,6 +154,7 @@ tree3 = { usesilent ~ seq ~ rep }
 tree4 = { tree3 ~ (tree3 | choice)? }
 marker = { &b }
 optempty = { a ~ marker? ~ b? ~ (marker | "c")? }
+silent_lit = _{ "a" ~ ("b" | NEWLINE)+ ~ ANY? }
 optpush_atomic = @{ PUSH(a) ~ (PUSH(b) ~ "c")? ~ b ~ PEEK? }
 optpush = { PUSH(a) ~ (PUSH(b) ~ "c")? ~ b ~ PEEK? ~ (PUSH(a) ~ a)* ~ POP? }
 "#]
@@ -466,6 +469,7 @@ fn all_sub(s: &str, cases: &mut u64) -> Result<(), String> {
     check_sub_entry!(rules, silent, s, cases);
     check_sub_entry!(rules, silent_ref, s, cases);
     check_sub_entry!(rules, deep_s, s, cases);
+    check_sub_entry!(rules, silent_lit, s, cases);
     check_sub_entry!(pairs, seq_compound, s, cases);
     check_sub_entry!(pairs, pred, s, cases);
     check_sub_entry!(pairs, optpush_atomic, s, cases);
@@ -498,7 +502,7 @@ fn nb_gen_subinput() {
             Err(_) => { println!("NB-RESULT name=nb_gen_subinput status=fail cases={} key=input={:?} detail=C09: panic", cases, s); return; }
         }
     }
-    println!("NB-RESULT name=nb_gen_subinput status=ok cases={} key=- detail=21 entry rules (3 of them silent) x all strings<={} chars over 3 alphabets x all sub-ranges: Span / Position sub-input vs fresh copy (partial and full, parse and check, offsets and trees), error locations inside the given range", cases, l);
+    println!("NB-RESULT name=nb_gen_subinput status=ok cases={} key=- detail=22 entry rules (4 of them silent, one made of terminals only) x all strings<={} chars over 3 alphabets x all sub-ranges: Span / Position sub-input vs fresh copy (partial and full, parse and check, offsets and trees), error locations inside the given range", cases, l);
 }
 
 
